@@ -415,6 +415,10 @@ pub fn run(ctx: &Ctx) {
     ctx.exhaustive("message_lengths_1_255", "every message length 1..=255 with r injected: exact ciphertext, independent decryption, round trip", move || {
         (1..=255usize).map(|l| Base { ke: gen::hex32(&BigUint::from(0x1234_5678u64)), ke_rel: ((l % 5) as u8) << 4 | ((l / 5 % 2) as u8) << 7, id_len: 1 + l % 11, id_seed: seed ^ l as u64, msg_len: l, msg_seed: seed.wrapping_mul(17) ^ l as u64, r: Hex(expand_bytes(seed ^ 0x1010 ^ l as u64, 32)) }).collect()
     }, check_encrypt);
+    let huge: Vec<usize> = ctx.tier.pick(vec![(1usize << 16) - 1, 1 << 16, (1 << 16) + 3, 100_000], vec![(1usize << 16) - 1, 1 << 16, (1 << 16) + 3, 100_000, (1 << 17) + 40, (1 << 18) + 8, (1 << 20) + 5]);
+    ctx.listed("huge_messages", "messages of 2^16-1, 2^16, 2^16+3, 100000 bytes (thorough: up to 2^20+5) with r injected: exact ciphertext, independent decryption, round trip (size thresholds, chunked or parallel paths)", move || {
+        huge.iter().map(|l| Base { ke: gen::hex32(&BigUint::from(0x1234_5679u64)), ke_rel: 0, id_len: 5, id_seed: seed ^ *l as u64, msg_len: *l, msg_seed: seed.wrapping_mul(19) ^ *l as u64, r: Hex(expand_bytes(seed ^ 0x1011 ^ *l as u64, 32)) }).collect::<Vec<_>>()
+    }, check_encrypt);
     let nrel = ctx.tier.pick(6u64, 40u64);
     ctx.listed("master_key_related_to_h1", "master keys crafted from the identity: ke = H1(ID||03) (Q_B becomes a doubling), ke = 2*H1, ke = H1 - 1: exact ciphertext and round trip; reference ciphertext decrypts", move || {
         let mut v = Vec::new();
